@@ -254,11 +254,12 @@ def buildTrace (ts : List (Int × Int × Int)) : Except Err (RTree × List Bool)
 
 /-- the same loop on a tree the caller constructed as `RegionCoreTree(base_x, base_y, level)` (the class is
 public): every `add_core` return value - a node below the root reports `True` when a core fills its square - and
-the `ValueError` for a chip outside the node's square -/
+the `ValueError` for a chip outside the node's square.  Recursion fuel = the `4 - level` levels at and below
+the node. -/
 def buildTraceAt (x0 y0 lv : Nat) (ts : List (Int × Int × Int)) : Except Err (RTree × List Bool) :=
   ts.foldlM (fun (st : RTree × List Bool) (c : Int × Int × Int) =>
     if c.1 < 0 ∨ c.2.1 < 0 ∨ c.2.2 < 0 then .error .valueError
-    else match addCore 4 st.1 c.1.toNat c.2.1.toNat c.2.2.toNat with
+    else match addCore (4 - lv) st.1 c.1.toNat c.2.1.toNat c.2.2.toNat with
       | .error e => .error e
       | .ok (t', b) => .ok (t', st.2 ++ [b])) (RTree.new x0 y0 lv, [])
 
@@ -278,10 +279,11 @@ def handle (op : String) (j : Json) : R Json := do
     | .error e => pure (jErr (errName e))
   | "subtree" =>
     let ts ← (← arr j "targets").mapM asTriple
-    match buildTraceAt (← nat j "x") (← nat j "y") (← nat j "level") ts with
+    let lv ← nat j "level"
+    match buildTraceAt (← nat j "x") (← nat j "y") lv ts with
     | .ok (t, bs) =>
       pure (jOk (Json.mkObj [("tree", treeToJson t), ("returns", jList (bs.map Json.bool)),
-        ("yield", jPairs (emit 4 t))]))
+        ("yield", jPairs (emit (4 - lv) t))]))
     | .error e => pure (jErr (errName e))
   | "region" =>
     match regionForChip (← nat j "x") (← nat j "y") (← nat j "level") with
